@@ -20,8 +20,10 @@ ShapesUpTo(n) == UNION {[1..k -> Alpha] : k \in 1..n}
 (* "rp" = report.pdf; every other symbol is the literal it spells                        *)
 MixedShapes == {<<"vN">>, <<"v1">>, <<"V">>, <<"files", "rE">>, <<"files", "rp">>, <<"files", "V">>,
                 <<"PQ">>, <<"a-b">>, <<"vN", "a">>, <<"v1", "V">>, <<"a", "vN">>}
+(* a third small universe ("enc"): a literal segment with a percent-encoded character *)
+EncShapes == {<<"a%20b">>, <<"V">>, <<"a%20b", "V">>, <<"V", "a%20b">>}
 Code(c) == CASE c = "a" -> 1 [] c = "b" -> 2 [] c = "V" -> 3 [] c = "v1" -> 4 [] c = "vN" -> 5 [] c = "files" -> 6
-             [] c = "rp" -> 7 [] c = "rE" -> 8 [] c = "a-b" -> 9 [] c = "PQ" -> 10
+             [] c = "rp" -> 7 [] c = "rE" -> 8 [] c = "a-b" -> 9 [] c = "PQ" -> 10 [] c = "a%20b" -> 11
 ShapeRank(sh) == Len(sh) * 10000 + Code(sh[1]) * 256
                  + (IF Len(sh) > 1 THEN Code(sh[2]) * 16 ELSE 0) + (IF Len(sh) > 2 THEN Code(sh[3]) ELSE 0)
 
@@ -52,18 +54,22 @@ Templates(tm) == LET ord == SetToSortSeq(DOMAIN tm, LAMBDA a, b : ShapeRank(a) <
 L(s) == [l |-> s]
 ApiHost == <<L("api"), L("example"), L("com")>>
 AbsV1 == [abs |-> TRUE, scheme |-> "https", host |-> ApiHost, port |-> <<>>, base |-> <<"v1">>, slash |-> FALSE]
+(* base paths with a percent-encoded character: an encoded space (relslash, two, pslast)   *)
+(* and an encoded slash (absvar) -- an encoded slash is data, "my%2Fapi" is one segment   *)
+OtherEnc == [abs |-> TRUE, scheme |-> "http", host |-> <<L("other"), L("example"), L("com")>>,
+             port |-> <<>>, base |-> <<"my%20api">>, slash |-> FALSE]
 OtherHost == [abs |-> TRUE, scheme |-> "http", host |-> <<L("other"), L("example"), L("com")>>,
               port |-> <<>>, base |-> <<>>, slash |-> FALSE]
 ServerShapes ==
    [none     |-> <<>>,
     rel      |-> <<[abs |-> FALSE, base |-> <<"b">>, slash |-> FALSE]>>,
-    relslash |-> <<[abs |-> FALSE, base |-> <<"b">>, slash |-> TRUE]>>,
+    relslash |-> <<[abs |-> FALSE, base |-> <<"my%20api">>, slash |-> TRUE]>>,
     relroot  |-> <<[abs |-> FALSE, base |-> <<>>, slash |-> TRUE]>>,
     abs      |-> <<AbsV1>>,
     absvar   |-> <<[abs |-> TRUE, scheme |-> "https",
                     host |-> <<[v |-> "sub", d |-> "api"], L("example"), L("com")>>,
-                    port |-> <<[v |-> "port", d |-> "8443"]>>, base |-> <<"v1">>, slash |-> FALSE]>>,
-    two      |-> <<AbsV1, OtherHost>>,
+                    port |-> <<[v |-> "port", d |-> "8443"]>>, base |-> <<"my%2Fapi">>, slash |-> FALSE]>>,
+    two      |-> <<AbsV1, OtherEnc>>,
     \* one base path is a string prefix of the other (/v1 and /v10)
     relpfx   |-> <<[abs |-> FALSE, base |-> <<"v1">>, slash |-> FALSE], [abs |-> FALSE, base |-> <<"v10">>, slash |-> FALSE]>>,
     abspfx   |-> <<AbsV1, [AbsV1 EXCEPT !.base = <<"v10">>]>>]
@@ -76,12 +82,12 @@ SrvRank(k) == CASE k = "none" -> 1 [] k = "rel" -> 2 [] k = "relslash" -> 3 [] k
                 [] k = "abs" -> 5 [] k = "absvar" -> 6 [] k = "two" -> 7 [] k = "psfirst" -> 8 [] k = "pslast" -> 9
                 [] k = "relpfx" -> 10 [] k = "abspfx" -> 11
 
-WithOwn(t) == [segs |-> t.segs, ops |-> t.ops, servers |-> <<OtherHost>>]
+WithOwn(t, sv) == [segs |-> t.segs, ops |-> t.ops, servers |-> <<sv>>]
 Doc(tm, sk) ==
    LET ts == Templates(tm) IN
    IF sk \in OverrideKeys
    THEN LET w == IF sk = "psfirst" THEN 1 ELSE Len(ts) IN
-        [templates |-> [k \in 1..Len(ts) |-> IF k = w THEN WithOwn(ts[k]) ELSE ts[k]], servers |-> <<AbsV1>>]
+        [templates |-> [k \in 1..Len(ts) |-> IF k = w THEN WithOwn(ts[k], IF sk = "psfirst" THEN OtherHost ELSE OtherEnc) ELSE ts[k]], servers |-> <<AbsV1>>]
    ELSE [templates |-> ts, servers |-> ServerShapes[sk]]
 
 -----------------------------------------------------------------------------
@@ -91,9 +97,13 @@ Vals == {"a", "b", "v"}
 (* the texts a segment is filled to: a plain variable takes the values a, b, v -- and, in *)
 (* a document of the mixed universe, the texts of the competing literals instead of b;   *)
 (* a mixed segment takes its literal text around values chosen to collide with siblings  *)
-SegFills(seg, mixed) ==
+HasEncLit(doc) == \E t \in 1..Len(doc.templates) : \E i \in 1..Len(doc.templates[t].segs) :
+                     IsLit(doc.templates[t].segs[i]) /\ IsEnc(doc.templates[t].segs[i].l)
+KindOf(doc) == IF HasMixed(doc) THEN "mixed" ELSE IF HasEncLit(doc) THEN "enc" ELSE "plain"
+SegFills(seg, mixed) ==       \* mixed: the kind of the document ("plain", "mixed", "enc")
    IF IsLit(seg) THEN {seg.l}
-   ELSE IF IsVar(seg) THEN (IF mixed THEN {"a", "v", "v1", "a-b", "report.pdf"} ELSE Vals)
+   ELSE IF IsVar(seg) THEN (IF mixed = "mixed" THEN {"a", "v", "v1", "a-b", "report.pdf"}
+                            ELSE IF mixed = "enc" THEN {"a", "v", "a%20b"} ELSE Vals)
    ELSE IF seg.mx[1] = [l |-> "v"] THEN {"v1", "v2", "vv"}
    ELSE IF seg.mx[1] = [l |-> "report."] THEN {"report.pdf", "report.txt"}
    ELSE {"a-b", "a-b-v", "v1-b"}
@@ -118,9 +128,9 @@ Near(p) == {p \o <<"v">>, p \o <<"">>, p \o <<"", "">>}
 NearMixed(p) == {[p EXCEPT ![i] = x] : i \in 1..Len(p), x \in {"v", "report.", "report", "a-", "-b"}}
 
 ResPaths(doc) == LET T == {doc.templates[k] : k \in 1..Len(doc.templates)}
-                     mixed == HasMixed(doc)
+                     mixed == KindOf(doc)
                  IN UNION {Fills(t, mixed) : t \in T} \cup UNION {Near(BaseFill(t)) : t \in T}
-                    \cup (IF mixed THEN UNION {NearMixed(BaseFill(t)) : t \in T} ELSE {})
+                    \cup (IF mixed = "mixed" THEN UNION {NearMixed(BaseFill(t)) : t \in T} ELSE {})
 
 (* the canonical URL of a path under a server: variables take their defaults *)
 Dflt(part) == IF IsVar(part) THEN part.d ELSE part.l
@@ -174,23 +184,38 @@ WellFormed(r) == Len(r.u.path) > 0 /\ (r.u.abs \/ r.u.path[1] # "")
 AllServers(doc) == UNION {{TServers(doc, t)[i] : i \in 1..Len(TServers(doc, t))} : t \in 1..Len(doc.templates)}
                    \cup {ServersOf(doc)[i] : i \in 1..Len(ServersOf(doc))}
 
+(* what may follow the path in a request URL; none of it belongs to the path *)
+Tails == {"?", "?a=1", "?a=1#top", "#top"}
+WithTail(u, tl) == [tail |-> tl] @@ u
+Bare(u) == [f \in DOMAIN u \ {"tail"} |-> u[f]]
+
 Requests(doc) ==
    LET S == ServersOf(doc)
        T == {doc.templates[k] : k \in 1..Len(doc.templates)}
+       kind == KindOf(doc)
        main == {[m |-> m, u |-> Under(sv, p)] : m \in MainMethods, p \in ResPaths(doc), sv \in AllServers(doc)}
        odd == {[m |-> m, u |-> Under(S[1], BaseFill(t))] : m \in OddMethods, t \in T}
        srv == UNION {{[m |-> t.ops[1].m, u |-> u] : u \in ServerVariants(doc, BaseFill(t))} : t \in T}
-   IN {r \in main \cup odd \cup srv : WellFormed(r)}
+       \* every fill of every template again with "?", a query, a query and a fragment, a fragment alone
+       tails == UNION {{[m |-> t.ops[1].m, u |-> WithTail(Under(S[1], p), tl)] : p \in Fills(t, kind), tl \in Tails} : t \in T}
+       \* percent-encoded characters (a space, a slash) inside the value of a variable
+       encv == IF kind = "mixed" THEN {}
+               ELSE UNION {{[m |-> t.ops[1].m, u |-> Under(S[1], [BaseFill(t) EXCEPT ![i] = x])] :
+                              i \in {j \in 1..Len(t.segs) : IsVar(t.segs[j])}, x \in {"x%20y", "a%2Fb"}} : t \in T}
+   IN {r \in main \cup odd \cup srv \cup tails \cup encv : WellFormed(r)}
 
 (* The order the requests of a document are run in (one router instance per chunk of     *)
 (* this sequence): first the main URLs, each with GET and then POST back to back -- so    *)
 (* that a route returned for one method is still held by the caller while the same URL   *)
-(* is routed with another declared method --, then the rest.  An even chunk length keeps *)
-(* the pairs together.                                                                   *)
+(* is routed with another declared method -- followed by the same URL with its query /   *)
+(* fragment tails (so that the result for the bare URL is in the same chunk); then the   *)
+(* rest.  Groups and the chunk length are even, which keeps the pairs together.          *)
 ReqSeq(doc) ==
    LET all == Requests(doc)
-       urls == SetToSeq({r.u : r \in {x \in all : x.m \in MainMethods /\ [x EXCEPT !.m = "GET"] \in all
-                                                  /\ [x EXCEPT !.m = "POST"] \in all}})
-       pairs == [k \in 1..(2 * Len(urls)) |-> [m |-> IF k % 2 = 1 THEN "GET" ELSE "POST", u |-> urls[(k + 1) \div 2]]]
-   IN pairs \o SetToSeq(all \ {pairs[k] : k \in 1..Len(pairs)})
+       tailed == {x \in all : UTail(x.u) # ""}
+       urls == SetToSeq({r.u : r \in {x \in all \ tailed : x.m \in MainMethods /\ [x EXCEPT !.m = "GET"] \in all
+                                                             /\ [x EXCEPT !.m = "POST"] \in all}})
+       grp(u) == <<[m |-> "GET", u |-> u], [m |-> "POST", u |-> u]>> \o SetToSeq({x \in tailed : Bare(x.u) = u})
+       grouped == FlattenSeq([k \in 1..Len(urls) |-> grp(urls[k])])
+   IN grouped \o SetToSeq(all \ {grouped[k] : k \in 1..Len(grouped)})
 =============================================================================
